@@ -94,6 +94,25 @@ def _errors_only(out):
 _SCRATCH = None
 
 
+def kill_strays(root):
+    """kill helper / shell processes left behind by a run (a process whose arguments or environment name its scratch directory)"""
+    key = (root.rstrip('/') + '/').encode()
+    me = os.getpid()
+    for d in os.listdir('/proc'):
+        if not d.isdigit() or int(d) == me:
+            continue
+        try:
+            with open('/proc/%s/cmdline' % d, 'rb') as f:
+                blob = f.read()
+            if key not in blob:
+                with open('/proc/%s/environ' % d, 'rb') as f:
+                    blob = f.read()
+            if key in blob:
+                os.kill(int(d), signal.SIGKILL)
+        except OSError:
+            pass
+
+
 def scratch_root():
     global _SCRATCH
     if _SCRATCH is None:
@@ -105,8 +124,14 @@ def scratch_root():
 
         def _clean():
             if os.getpid() == owner:
+                kill_strays(_SCRATCH)
                 shutil.rmtree(_SCRATCH, ignore_errors=True)
         atexit.register(_clean)
+        # scratch directories of runs that were killed before they could clean up
+        for d in os.listdir(base):
+            if d.startswith('vcheck-') and d[7:].isdigit() and not os.path.exists('/proc/' + d[7:]):
+                kill_strays(os.path.join(base, d))
+                shutil.rmtree(os.path.join(base, d), ignore_errors=True)
     return _SCRATCH
 
 
